@@ -8,6 +8,7 @@ import (
 type rawPathVariable struct {
 	schema          catalog.Schema
 	parameters      []PathParameter
-	pathDirective   directive.Directive // to detect and display an error
+	pathDirective   directive.Directive  // to detect and display an error
+	parent          *directive.Directive // identity of the directive the Path belongs to
 	parentDirective directive.Directive
 }
